@@ -86,8 +86,10 @@ fn main() {
             _ if doc.part.starts_with("rx-restock") => vlab::replay::replay_dfs(&doc, &c05::run_rx_restock),
             _ if doc.part.starts_with("driver-notify:") => {
                 let name = doc.part.split(':').nth(1).unwrap_or("").to_string();
+                let tname = doc.part.split(':').nth(2).unwrap_or("model").to_string();
+                let t = vlab::drivers::ALL_TKINDS.into_iter().find(|t| t.name() == tname).unwrap_or(vlab::drivers::TKind::Model);
                 match vlab::drivers::ALL_KINDS.into_iter().find(|k| k.name() == name) {
-                    Some(k) => vlab::replay::replay_dfs(&doc, &move || vlab::c05_drivers::run_driver_notify(k, vlab::drivers::TKind::Model)),
+                    Some(k) => vlab::replay::replay_dfs(&doc, &move || vlab::c05_drivers::run_driver_notify(k, t)),
                     None => 2,
                 }
             }
@@ -121,11 +123,15 @@ fn main() {
     let st = dfs::explore(&cfg, &c05::run_rx_restock);
     c.add_dfs("rx-restock+wait_for_event", &st);
     // (e) notification discipline of every driver, queue by queue, for every set of suppressed queues.
-    for k in vlab::drivers::ALL_KINDS {
-        let part = format!("driver-notify:{}:model", k.name());
-        let cfg = DfsConfig::new(&part, 0);
-        let st = dfs::explore(&cfg, &move || vlab::c05_drivers::run_driver_notify(k, vlab::drivers::TKind::Model));
-        c.add_dfs(&part, &st);
+    // On the model transport and on the real ones (PCI: every queue has its own doorbell offset,
+    // so a notification computed for the wrong queue reaches another queue).
+    for t in vlab::drivers::ALL_TKINDS {
+        for k in vlab::drivers::ALL_KINDS {
+            let part = format!("driver-notify:{}:{}", k.name(), t.name());
+            let cfg = DfsConfig::new(&part, 0);
+            let st = dfs::explore(&cfg, &move || vlab::c05_drivers::run_driver_notify(k, t));
+            c.add_dfs(&part, &st);
+        }
     }
     c.finish();
 }
